@@ -261,10 +261,10 @@ func (s *relaygenSys) Check(e Edge, obs []Obs) []Mismatch {
 			o["port"] = ap
 		}
 		if toInt(o["advport"]) != toInt(o["port"]) {
-			ms = append(ms, Mismatch{"relaygen", desc + fmt.Sprintf(": advertised port %v, bound port %v", o["advport"], o["port"])})
+			ms = append(ms, Mismatch{"relaygen.adv", desc + fmt.Sprintf(": advertised port %v, bound port %v", o["advport"], o["port"])})
 		}
 		if o["adv"] != m["adv"] {
-			ms = append(ms, Mismatch{"relaygen", desc + fmt.Sprintf(": advertised IP class %v, spec %v", o["adv"], m["adv"])})
+			ms = append(ms, Mismatch{"relaygen.adv", desc + fmt.Sprintf(": advertised IP class %v, spec %v", o["adv"], m["adv"])})
 		}
 	}
 
